@@ -733,6 +733,11 @@ def _apply_edit(model, kind, a, b):
     ths = theta_names(model)
     nm = ths[a % len(ths)]
     p_ = model.parameters[nm]
+    if b % 3 == 1:
+        # FIX / unFIX of one theta: a member of a repeated item `(low,init,up)xN` must leave the repeat
+        if p_.fix:
+            return 'unfix_parameters', pm.unfix_parameters(model, [nm])
+        return 'fix_parameters', pm.fix_parameters(model, [nm])
     if p_.fix:
         raise Reject('fixed theta')
     lo, up, init = float(p_.lower), float(p_.upper), float(p_.init)
